@@ -94,6 +94,16 @@ def _build_fir(inputs):
             out += list(f.process(x[pos:pos + n]))
             pos += n
         out += list(f.get_remaining())
+        # the same cut fed through ONE re-used block buffer that the caller overwrites between the calls
+        g = FirFilter(h, inputs["m0"])
+        buf = np.zeros(max(inputs["blocks"]) if inputs["blocks"] else 1, dtype=x.dtype)
+        reused, pos = [], 0
+        for n in inputs["blocks"]:
+            buf[:n] = x[pos:pos + n]
+            reused += [int(v) for v in g.process(buf[:n])]
+            buf[:] = 21845
+            pos += n
+        reused += [int(v) for v in g.get_remaining()]
         # after the flush the filter behaves like a new one
         again = list(f.process(x)) + list(f.get_remaining())
         # independent reference: the valid convolution of zeros(N-1-m0) ++ x ++ zeros(m0), cast like the input block
@@ -101,7 +111,7 @@ def _build_fir(inputs):
         padded = np.concatenate([np.zeros(N - 1 - inputs["m0"]), x.astype(float), np.zeros(inputs["m0"])])
         indep = np.convolve(padded, h, "valid").astype(x.dtype) if len(padded) >= N else np.asarray([], dtype=x.dtype)
         return {"ref": [int(v) for v in ref], "out": [int(v) for v in out], "again": [int(v) for v in again],
-                "indep": [int(v) for v in indep], "ref_types": sorted({type(v).__name__ for v in ref})}
+                "indep": [int(v) for v in indep], "reused": reused, "ref_types": sorted({type(v).__name__ for v in ref})}
     return {"call": run, "env": {}}
 
 
@@ -111,6 +121,8 @@ def _oracle_fir(inputs, kind, val, env):
     bad = []
     if val["out"] != val["ref"]:
         bad.append(f"oracle.block-split-independent(one block {val['ref']}, split {val['out']})")
+    if val["reused"] != val["ref"]:
+        bad.append(f"oracle.block-split-independent-with-a-reused-block-buffer(one block {val['ref']}, split {val['reused']})")
     if len(val["ref"]) != len(inputs["x"]):
         bad.append(f"oracle.as-many-outputs-as-inputs({len(val['ref'])} for {len(inputs['x'])})")
     if val["ref"] != val["indep"]:
